@@ -455,6 +455,41 @@ for kind in ('fragments', 'foreign-sender', 'short', 'unknown-atyp'):
         px.stop(); px = start()
 px.stop(); uo.stop()
 
+# ---- (vii) values a client chooses that the proxy KEEPS: the `Udp-Bind-Source` header of a UDP CONNECT names the
+#      source the session stands for (the direct connector remembers which local port served it). 3600 UDP sessions,
+#      each with another 60 kB value, against a process that may use 160 MiB of data segment: what is remembered per
+#      request must not add up (a failed allocation aborts the process)
+KEPT_MEM = 160 << 20
+# (a UDP session whose client has gone lingers until timeouts.udp: 1 s here, and a pause after every 100 requests, so
+# that what adds up is only what is kept for good)
+cfg['timeouts'] = {'idle': 600, 'udp': 1}
+px = start(mem=KEPT_MEM)
+uo2 = UdpOrigin()
+kept_sent = 0
+try:
+    for i in range(3600):
+        try:
+            val = (b'%06d' % (i if os.environ.get('C05_KEPT') != 'constant' else 0)) + b's' * 60000
+            s_ = socket.create_connection(('127.0.0.1', ports['http']), timeout=4)
+            s_.sendall(b'CONNECT 127.0.0.1:%d HTTP/1.1\r\nProxy-Protocol: udp\r\nUdp-Bind-Source: ' % uo2.port + val + b'\r\n\r\n')
+            head, rest = recv_head(s_, 4)
+            s_.close()
+            kept_sent += 1
+        except OSError:
+            if not px.alive():
+                break
+        if i % 100 == 99:
+            time.sleep(2.2)
+            if not px.alive():
+                break
+except Exception as e:
+    machinery(f'kept-values part: {e!r}')
+time.sleep(0.5)
+ok = judge(px, f'{kept_sent} UDP CONNECT requests, each with another 60 kB Udp-Bind-Source value (process limited to {KEPT_MEM >> 20} MiB of data segment)', 'client-chosen-value-kept-per-request:udp-bind-source', {'requests': kept_sent, 'rlimit_data': KEPT_MEM})
+samples.append({'kept_values': 'Udp-Bind-Source', 'requests': kept_sent, 'survived': ok})
+px.stop(); uo2.stop()
+del cfg['timeouts']
+
 # ---- (iv) fields that never end, against a process that is allowed 1 GiB of address space: the proxy must give
 #      up on the connection long before it runs out of memory (a failed allocation aborts the process)
 MEM = 768 << 20
